@@ -12,10 +12,22 @@ import importlib
 from .report import Report, load_known
 
 
+_ACTIVE: list[str] = []  # properties whose rule module is running (borrowers and sources); breaks C22 <-> C28
+
+
 def delegate(repo, rep: Report, tier: str, src_pid: str, src_rules: tuple[str, ...], rule: str, consequence: str, only=None, include_known: bool = False, floor: int = 1) -> int:
+    if src_pid in _ACTIVE:
+        # the source is itself waiting for this borrower's rules: its own rules are what the outer call copies
+        return 0
     mod = importlib.import_module(f"sa.rules.{src_pid.lower()}")
     sub = Report(src_pid, tier, mod.LEVEL, "")
-    mod.run(repo, sub, tier)
+    pushed = [p for p in (rep.pid, src_pid) if p not in _ACTIVE]
+    _ACTIVE.extend(pushed)
+    try:
+        mod.run(repo, sub, tier)
+    finally:
+        for p in pushed:
+            _ACTIVE.remove(p)
     known = [k for k in load_known() if k["property"] == src_pid and k.get("status") == "known"]
     n = 0
     for o in sub.obligations:
